@@ -41,7 +41,7 @@ Inductive change (c : cfg) (x : op) (r : res) (m m' : msg) : Prop :=
     change c x r m m'
 | ch_settle : forall k lid,
     lease_op_kind x = Some k -> In lid (presented x) -> m_lease m = Some lid ->
-    is_leased m = true -> op_now x < m_until m -> res_ok r = true ->
+    is_leased m = true -> op_now x < m_until m -> res_ok r = true -> is_noop_extend k = false ->
     lease_effect c (op_now x) k m = Some m' -> change c x r m m'
 | ch_manage : forall k,
     manage_kind_of x = Some k -> allowed_from k (m_st m) = true -> res_ok r = true ->
@@ -72,7 +72,7 @@ Definition step_spec (c : cfg) (x : op) (o : oracle) (r : res) (l l' : list msg)
 (** ** consequences of [change] / [removal]: the documented machine *)
 Lemma change_same_imm c x r m m' : change c x r m m' -> same_imm m m'.
 Proof.
-  intros H. destruct H as [E | _ _ E | route target b ttl lid m0 _ H0 _ _ E | k lid _ _ _ _ _ _ E | k _ _ _ E].
+  intros H. destruct H as [E | _ _ E | route target b ttl lid m0 _ H0 _ _ E | k lid _ _ _ _ _ _ _ E | k _ _ _ E].
   - subst. apply same_imm_refl.
   - subst. apply release_same_imm.
   - subst. destruct H0 as [H0 | [_ H0]]; subst; repeat split.
@@ -98,7 +98,7 @@ Proof. destruct x; simpl; intros H; try discriminate; reflexivity. Qed.
 
 Lemma change_edge c x r m m' : change c x r m m' -> edge_ok x (m_st m) (m_st m').
 Proof.
-  intros H. destruct H as [E | Hr He E | route target b ttl lid m0 Ex H0 Hrd _ E | k lid Hk _ _ Hl _ _ E | k Hk Ha _ E].
+  intros H. destruct H as [E | Hr He E | route target b ttl lid m0 Ex H0 Hrd _ E | k lid Hk _ _ Hl _ _ _ E | k Hk Ha _ E].
   - subst. left. reflexivity.
   - subst. unfold expired, is_leased in He. apply andb_true_iff in He. destruct He as [Hs _].
     destruct (m_st m); simpl in Hs; try discriminate. right. simpl. exact Hr.
@@ -134,7 +134,7 @@ Qed.
 Lemma change_on_error c x e m m' :
   change c x (RErr e) m m' -> m' = m \/ (expired (op_now x) m = true /\ m' = release (op_now x) m).
 Proof.
-  intros H. destruct H as [E | _ He E | route target b ttl lid m0 _ _ _ Hin _ | k lid _ _ _ _ _ Hok _ | k _ _ Hok _].
+  intros H. destruct H as [E | _ He E | route target b ttl lid m0 _ _ _ Hin _ | k lid _ _ _ _ _ Hok _ _ | k _ _ Hok _].
   - left. exact E.
   - right. split; assumption.
   - simpl in Hin. destruct Hin.
@@ -348,39 +348,48 @@ Lemma lease_one_pm c now k x l l' out iss :
   InvL l iss -> lease_one c now k x l = (l', out) ->
   exists pm, l' = apply_pm pm l /\ (forall m, In m l -> lchange c now k [x] m (pm m))
              /\ (out = LOk -> exists m, In m l /\ m_lease m = Some x /\ is_leased m = true /\ now < m_until m
-                                        /\ pm m = lease_effect c now k m).
+                                        /\ pm m = lease_effect c now k m)
+             /\ (forall m, In m l -> m_lease m = Some x -> is_leased m = true -> now < m_until m ->
+                            pm m = lease_effect c now k m /\ out = LOk).
 Proof.
   intros I H. unfold lease_one in H.
   destruct (find_lease x l) as [m|] eqn:F.
-  2:{ inversion H; subst. exists (fun m => Some m). rewrite apply_pm_id. split; [reflexivity|]. split; [|discriminate].
-      intros m _. left. reflexivity. }
+  2:{ inversion H; subst. exists (fun m => Some m). rewrite apply_pm_id. split; [reflexivity|]. split; [|split; [discriminate|]].
+      - intros m _. left. reflexivity.
+      - intros m Hm Lm _ _. exfalso. apply (find_lease_None x l' F m Hm Lm). }
   apply find_lease_Some in F. destruct F as [Hm Lm].
+  assert (Uniq : forall y, In y l -> m_lease y = Some x -> y = m).
+  { intros y Hy Ly. apply (inv_linj _ _ I y m x); assumption. }
   destruct (negb (is_leased m)) eqn:El.
-  { inversion H; subst. exists (fun m => Some m). rewrite apply_pm_id. split; [reflexivity|]. split; [|discriminate].
-    intros m0 _. left. reflexivity. }
+  { inversion H; subst. exists (fun m => Some m). rewrite apply_pm_id. split; [reflexivity|]. split; [|split; [discriminate|]].
+    - intros m0 _. left. reflexivity.
+    - intros y Hy Ly Il _. rewrite (Uniq y Hy Ly) in Il. apply negb_true_iff in El. congruence. }
   apply negb_false_iff in El.
   assert (Only : forall y, In y l -> N.eqb (m_id y) (m_id m) = true -> y = m).
   { intros y Hy E. apply N.eqb_eq in E. apply (nodup_ids_inj l); [apply I | | |]; assumption. }
   destruct (m_until m <=? now) eqn:Eu; inversion H; subst; clear H.
-  - exists (pm_on_id (m_id m) (fun y => Some (release now y))). split; [reflexivity|]. split; [|discriminate].
-    intros y Hy. unfold pm_on_id. destruct (N.eqb (m_id y) (m_id m)) eqn:E; [|left; reflexivity].
-    rewrite (Only y Hy E). right. left. exists x. repeat split; auto; [left; reflexivity|].
-    unfold expired. rewrite El, Eu. reflexivity.
+  - exists (pm_on_id (m_id m) (fun y => Some (release now y))). split; [reflexivity|]. split; [|split; [discriminate|]].
+    + intros y Hy. unfold pm_on_id. destruct (N.eqb (m_id y) (m_id m)) eqn:E; [|left; reflexivity].
+      rewrite (Only y Hy E). right. left. exists x. repeat split; auto; [left; reflexivity|].
+      unfold expired. rewrite El, Eu. reflexivity.
+    + intros y Hy Ly _ Hu. rewrite (Uniq y Hy Ly) in Hu. apply Z.leb_le in Eu. lia.
   - apply Z.leb_gt in Eu. exists (pm_on_id (m_id m) (lease_effect c now k)). split; [reflexivity|]. split.
     + intros y Hy. unfold pm_on_id. destruct (N.eqb (m_id y) (m_id m)) eqn:E; [|left; reflexivity].
       rewrite (Only y Hy E). right. right. exists x. repeat split; auto. left. reflexivity.
-    + intros _. exists m. repeat split; auto. unfold pm_on_id. rewrite N.eqb_refl. reflexivity.
+    + split.
+      * intros _. exists m. repeat split; auto. unfold pm_on_id. rewrite N.eqb_refl. reflexivity.
+      * intros y Hy Ly _ _. rewrite (Uniq y Hy Ly). split; [|reflexivity]. unfold pm_on_id. rewrite N.eqb_refl. reflexivity.
 Qed.
 
 Lemma lchange_to_change c x r k m :
-  lease_op_kind x = Some k ->
+  lease_op_kind x = Some k -> is_noop_extend k = false ->
   (lease_effect c (op_now x) k m = None -> k = KAck /\ c_deliv_age c <= 0) ->
   forall res, lchange c (op_now x) k (presented x) m res ->
   (forall lid, m_lease m = Some lid -> In lid (presented x) -> is_leased m = true -> op_now x < m_until m ->
                res = lease_effect c (op_now x) k m -> res_ok r = true) ->
   match res with Some m' => change c x r m m' | None => removal c x r m end.
 Proof.
-  intros Hk Hnone res [H | [[lid [A [B [Cc D]]]] | [lid [A [B [Cc [D E]]]]]]] Hok.
+  intros Hk Hne Hnone res [H | [[lid [A [B [Cc D]]]] | [lid [A [B [Cc [D E]]]]]]] Hok.
   - subst. apply ch_same. reflexivity.
   - subst. apply ch_expire; [apply (lease_op_kind_releases x k Hk) | exact Cc | reflexivity].
   - pose proof (Hok lid A B Cc D E) as Ok. subst res. destruct (lease_effect c (op_now x) k m) as [m'|] eqn:Ef.
@@ -399,7 +408,7 @@ Lemma step_lease_spec fl c now k lr o s s' r :
   step_spec c (LeaseOp now k lr) o r (msgs s) (msgs s').
 Proof.
   intros I H. unfold step_lease in H.
-  destruct (is_noop_extend k); [inversion H; subst; apply identity_spec|].
+  destruct (is_noop_extend k) eqn:Hne; [inversion H; subst; apply identity_spec|].
   destruct lr as [x p| |]; try (inversion H; subst; apply identity_spec).
   destruct (lease_one c now k x (msgs s)) as [l' out] eqn:E.
   destruct (lease_one_pm c now k x (msgs s) l' out (issued s) I E) as [pm [El [Hpm Hout]]].
@@ -408,7 +417,7 @@ Proof.
   exists pm, []. rewrite app_nil_r.
   assert (Hmsgs : msgs s' = l') by (destruct out as [|[|]]; inversion H; subst; reflexivity).
   split; [rewrite Hmsgs; exact El|]. split; [|left; reflexivity].
-  intros m Hm. apply (lchange_to_change c xop r k m Hk).
+  intros m Hm. apply (lchange_to_change c xop r k m Hk Hne).
   - apply lease_effect_none.
   - exact (Hpm m Hm).
   - (* the effect was applied: the outcome is LOk, hence the result is RUnit *)
@@ -455,16 +464,19 @@ Qed.
 Lemma lease_batch_pm c now k ls ms iss :
   batch_kind_ok k = true -> InvL ms iss ->
   exists pm, fst (fst (lease_batch c now k ls ms)) = apply_pm pm ms
-             /\ forall m, In m ms -> lchange c now k (known_leases ls) m (pm m).
+             /\ (forall m, In m ms -> lchange c now k (known_leases ls) m (pm m))
+             /\ (forall m x, In m ms -> m_lease m = Some x -> In x (known_leases ls) -> is_leased m = true ->
+                              now < m_until m -> pm m = lease_effect c now k m).
 Proof.
   intros Hk. revert ms. induction ls as [|l tl IH]; intros ms I.
-  - exists (fun m => Some m). simpl. rewrite apply_pm_id. split; [reflexivity|]. intros m _. left. reflexivity.
+  - exists (fun m => Some m). simpl. rewrite apply_pm_id. split; [reflexivity|].
+    split; [intros m _; left; reflexivity | intros m x _ _ []].
   - destruct l as [x p| |].
     + simpl. destruct (lease_one c now k x ms) as [ms1 out] eqn:E.
-      destruct (lease_one_pm c now k x ms ms1 out iss I E) as [pm1 [E1 [H1 _]]].
+      destruct (lease_one_pm c now k x ms ms1 out iss I E) as [pm1 [E1 [H1 [_ H1c]]]].
       assert (I1 : InvL ms1 iss) by (apply (lease_one_inv _ _ _ _ _ _ _ _ E); exact I).
-      destruct (IH ms1 I1) as [pm2 [E2 H2]].
-      exists (pm_comp pm1 pm2). split.
+      destruct (IH ms1 I1) as [pm2 [E2 [H2 H2c]]].
+      exists (pm_comp pm1 pm2). split; [|split].
       * rewrite <- apply_pm_comp, <- E1.
         destruct out; destruct (lease_batch c now k tl ms1) as [[ms' n] cs]; simpl in *; exact E2.
       * intros m Hm. unfold pm_comp. specialize (H1 m Hm).
@@ -479,10 +491,23 @@ Proof.
               rewrite (not_leased_lchange c now k _ _ _ (lease_effect_not_leased c now k m m1 Hk Ef) (H2 _ Hin)).
               right. right. exists lid. repeat split; auto. destruct B as [B | []]. left. exact B.
            ++ right. right. exists lid. repeat split; auto. destruct B as [B | []]. left. exact B.
+      * (* completeness: a current unexpired lease that is presented takes effect *)
+        intros m y Hm Ly Hy Il Hu. unfold pm_comp. simpl in Hy.
+        destruct (N.eq_dec x y) as [Exy | Nxy].
+        -- subst y. destruct (H1c m Hm Ly Il Hu) as [P _]. rewrite P.
+           destruct (lease_effect c now k m) as [m1|] eqn:Ef; [|reflexivity].
+           assert (Hin : In m1 ms1) by (rewrite E1; apply apply_pm_In; exists m; split; [exact Hm | congruence]).
+           apply (not_leased_lchange c now k _ _ _ (lease_effect_not_leased c now k m m1 Hk Ef) (H2 _ Hin)).
+        -- destruct Hy as [Hy | Hy]; [contradiction|].
+           assert (P : pm1 m = Some m).
+           { destruct (H1 m Hm) as [P | [[lid [A [B _]]] | [lid [A [B _]]]]]; [exact P | |];
+               destruct B as [B | []]; exfalso; apply Nxy; congruence. }
+           rewrite P. assert (Hin : In m ms1) by (rewrite E1; apply apply_pm_In; exists m; auto).
+           apply (H2c m y Hin Ly Hy Il Hu).
     + simpl. destruct (IH ms I) as [pm [E H]]. exists pm.
-      destruct (lease_batch c now k tl ms) as [[ms' n] cs]; simpl in *. split; assumption.
+      destruct (lease_batch c now k tl ms) as [[ms' n] cs]; simpl in *. split; [exact E | exact H].
     + simpl. destruct (IH ms I) as [pm [E H]]. exists pm.
-      destruct (lease_batch c now k tl ms) as [[ms' n] cs]; simpl in *. split; assumption.
+      destruct (lease_batch c now k tl ms) as [[ms' n] cs]; simpl in *. split; [exact E | exact H].
 Qed.
 
 Lemma step_lease_batch_spec c now k ls o s s' r :
@@ -492,12 +517,13 @@ Proof.
   intros Hk I H. unfold step_lease_batch in H.
   set (k' := match k with KNack d => KNack (Z.max d 0) | _ => k end) in *.
   assert (Hk' : batch_kind_ok k' = true) by (destruct k; exact Hk).
-  destruct (lease_batch_pm c now k' ls (msgs s) (issued s) Hk' I) as [pm [E Hpm]].
+  destruct (lease_batch_pm c now k' ls (msgs s) (issued s) Hk' I) as [pm [E [Hpm _]]].
   destruct (lease_batch c now k' ls (msgs s)) as [[ms' n] cs] eqn:Eb. inversion H; subst s' r. simpl in *.
   set (xop := LeaseBatch now k ls).
   assert (Hkind : lease_op_kind xop = Some k') by reflexivity.
   exists pm, []. rewrite app_nil_r. split; [exact E|]. split; [|left; reflexivity].
-  intros m Hm. apply (lchange_to_change c xop (RBatch n cs) k' m Hkind).
+  assert (Hne : is_noop_extend k' = false) by (destruct k; simpl in *; try reflexivity; discriminate).
+  intros m Hm. apply (lchange_to_change c xop (RBatch n cs) k' m Hkind Hne).
   - apply lease_effect_none.
   - unfold xop. rewrite presented_batch. exact (Hpm m Hm).
   - intros; reflexivity.
